@@ -510,3 +510,43 @@ func VerifC13TAReconfigureAccepted() {
 	w.checkC01()
 	w.checkC03()
 }
+
+// VerifC13TAImplicitAffinities: the implicit affinities registered in the
+// cache follow the configuration in effect across a sequence of accepted
+// reconfigurations that switch colocatePods / colocateNamespaces on and off,
+// and a rejected update (reserved cpuset outside the available CPUs) leaves
+// them as they were.
+func VerifC13TAImplicitAffinities() {
+	machine := verifParam("machine", 0)
+	_, _, ncpu := verifMachine(machine)
+	allowed, reserved, isolated := verifSymbolicConstraints(ncpu, 0)
+	mk := func(bits int, reservedSet string) *cfgapi.Config {
+		cfg := verifTAConfig(reservedSet)
+		cfg.ColocatePods, cfg.ColocateNamespaces = bits&1 != 0, bits&2 != 0
+		return cfg
+	}
+	cur := verifChoice("initial", 4)
+	w := verifNewPolicy(machine, allowed, reserved, isolated, mk(cur, "cpuset:0"))
+	if err := w.p.registerImplicitAffinities(); err != nil { // what Setup does
+		verifAssert("C13.ta.implicit.registered-at-setup", false)
+		return
+	}
+	for k := 0; k < verifParam("updates", 2); k++ {
+		next := verifChoice("next", 4)
+		if verifChoice("rejected", 2) == 1 {
+			err := w.p.Reconfigure(mk(next, "cpuset:63"))
+			verifCover("implicit-update-rejected")
+			verifAssert("C13.ta.implicit.invalid-config-rejected", err != nil)
+			// what resmgr.reconfigure does: re-apply the configuration in force
+			verifAssert("C13.ta.implicit.previous-config-reapplied", w.p.Reconfigure(mk(cur, "cpuset:0")) == nil)
+		} else {
+			if err := w.p.Reconfigure(mk(next, "cpuset:0")); err != nil {
+				return
+			}
+			cur = next
+			verifCover("implicit-update-accepted")
+		}
+		verifAssert("C13.ta.implicit.colocate-pods-follows-config", w.cache.implicit[PolicyName+":colocate-pods"] == (cur&1 != 0))
+		verifAssert("C13.ta.implicit.colocate-namespaces-follows-config", w.cache.implicit[PolicyName+":colocate-namespaces"] == (cur&2 != 0))
+	}
+}
